@@ -640,7 +640,7 @@ def schemas(draw, special_text=False, odd_literals=False, max_messages=3, allow_
         if rest >= 2 and draw(st.booleans()):
             a = draw(st.integers(1, rest - 1))
             lay["blocks"] = [a]
-            lay["tail_block"] = draw(st.integers(0, 2)) == 0
+            lay["tail_block"] = draw(st.booleans())
         sch["layout"] = lay
     return sch
 
